@@ -297,6 +297,73 @@ def coq_failing(imports: str, fn: str, cases: list[tuple[t.Any, t.Any]], *, tag:
     return sorted(set(failing)), "\n".join(logs)
 
 
+def parse_val(txt: str):
+    """parse a Coq-printed [val] back into Python (diagnostics only)"""
+    toks = re.findall(r"VL|VZ|VS|VB|VNone|VE|true|false|\[|\]|;|\(|\)|-?\d+", txt.replace("%Z", "").replace("%N", ""))
+    pos = 0
+
+    def val():
+        nonlocal pos
+        t = toks[pos]; pos += 1
+        if t == "(":
+            v = val(); pos += 1
+            return v
+        if t == "VNone":
+            return None
+        if t == "VZ":
+            return num()
+        if t == "VE":
+            code = num()
+            return Err(next((k for k, c in ERRS.items() if c == code), "Other"))
+        if t == "VB":
+            t2 = toks[pos]; pos += 1
+            return t2 == "true"
+        if t in ("VS", "VL"):
+            assert toks[pos] == "[", toks[pos - 2:pos + 3]
+            pos += 1
+            out = []
+            while toks[pos] != "]":
+                out.append(num() if t == "VS" else val())
+                if toks[pos] == ";":
+                    pos += 1
+            pos += 1
+            return "".join(chr(c) for c in out) if t == "VS" else out
+        raise ValueError(f"unexpected token {t}")
+
+    def num():
+        nonlocal pos
+        t = toks[pos]; pos += 1
+        if t == "(":
+            v = num(); pos += 1
+            return v
+        return int(t)
+    return val()
+
+
+def coq_eval(imports: str, fn: str, inp: t.Any, *, timeout: int = 300):
+    """model output for one input (diagnostics)"""
+    cdir = COQ / "Cases"
+    cdir.mkdir(exist_ok=True)
+    name = f"eval_{os.getpid()}_{abs(hash(fn)) % 10000}"
+    f = cdir / f"{name}.v"
+    f.write_text("\n".join([imports, "From V Require Import Model.Val.", "From Coq Require Import ZArith NArith List.",
+                            "Import ListNotations.", "Open Scope N_scope.",
+                            f"Definition out := Eval vm_compute in {fn} ({to_coq(inp)}).", "Print out."]) + "\n")
+    rc, out = sh(["bash", "-c", f"ulimit -s unlimited 2>/dev/null; exec timeout {timeout} coqc -Q {COQ} V {f}"], timeout=timeout + 10)
+    for ext in (".v", ".vo", ".vok", ".vos", ".glob"):
+        with contextlib.suppress(FileNotFoundError):
+            (cdir / f"{name}{ext}").unlink()
+    with contextlib.suppress(FileNotFoundError):
+        (cdir / f".{name}.aux").unlink()
+    m = re.search(r"out\s*=\s*(.*?)\s*:\s*val", " ".join(out.split()))
+    if rc != 0 or not m:
+        return Err("Malformed")
+    try:
+        return parse_val(m.group(1))
+    except Exception:  # noqa: BLE001
+        return m.group(1)[:2000]
+
+
 # ---------------------------------------------------------------- known findings
 def load_known() -> list[dict]:
     """known_findings.json plus the per-property fragments known_findings.d/*.json"""
@@ -349,8 +416,10 @@ class Check:
             sh([str(COQ / "mk.sh"), "-k"] + [str(p.relative_to(COQ)) + "o" for p in COQ.glob("Model/*.v")], timeout=900)
         bad, log = coq_failing(imports, fn, cases, tag=tag or f"{self.pid}_{fn.replace('.', '_')}", **kw)
         self.corr_cases += len(cases)
-        for i in bad[:20]:
+        for n_, i in enumerate(bad[:20]):
             d = {"fn": fn, "input": jsonable(cases[i][0]), "impl": jsonable(cases[i][1])}
+            if n_ < 2:
+                d["model"] = jsonable(coq_eval(imports, fn, cases[i][0]))
             if describe:
                 d["desc"] = jsonable(describe(i))
             self.corr_disagreements.append(d)
@@ -373,6 +442,9 @@ class Check:
         known_keys = {k["key"]: k for k in known}
         rdir = OUT / "replay"
         rdir.mkdir(exist_ok=True)
+        if not getattr(self, "replay_file", None):
+            for old in rdir.glob(f"{self.pid}-*.json"):
+                old.unlink()
         new: dict[str, Finding] = {}
         seen_known: dict[str, Finding] = {}
         for f in self.findings:
